@@ -2372,8 +2372,16 @@ def _escaped_like_impl(
 
         if escape not in ("%", "_"):
             other = other.replace(escape, escape + escape)
-
-        other = other.replace("%", escape + "%").replace("_", escape + "_")
+            other = other.replace("%", escape + "%").replace(
+                "_", escape + "_"
+            )
+        else:
+            # the escape character is itself a wildcard; escape in one
+            # pass so that an inserted escape character is not escaped again
+            other = "".join(
+                escape + char if char in ("%", "_") else char
+                for char in other
+            )
 
     return fn(other, escape=escape)
 
